@@ -241,3 +241,14 @@ mutant("C09-M10", "C09", "R09d", "update_links reads the whole transition series
 mutant("C09-M11", "C09", "R09a", "one program store hoisted out of the gate", M, "Model.update_pars", "            # Handle parameters that aggregate over populations and use interactions in these functions.\n", "            if self.programs_active:\n                for par in pars:\n                    if (par.name, par.pop.name) in prog_vals:\n                        par[ti] = prog_vals[(par.name, par.pop.name)]\n")
 twin("C09-T1", "C09", "gate written as two nested conditions", M, "Model.update_pars", "do_program_overwrite = self.programs_active and self.program_instructions.start_year <= self.t[ti] <= self.program_instructions.stop_year", "in_window = self.program_instructions.start_year <= self.t[ti] and self.t[ti] <= self.program_instructions.stop_year if self.programs_active else False\n        do_program_overwrite = self.programs_active and self.program_instructions.start_year <= self.t[ti] and self.t[ti] <= self.program_instructions.stop_year")
 twin("C09-T2", "C09", "method='previous' passed positionally", PR, "Program.get_capacity", "unit_cost = self.unit_cost.interpolate(tvec, method=\"previous\")", "unit_cost = self.unit_cost.interpolate(tvec, \"previous\")")
+
+# =============================================================================================== C10
+mutant("C10-M1", "C10", "R10a", "key tuple swapped in from_result only", PA, "Initialization.from_result", "                    values[(comp.name, pop.name)] = comp._vals[:, idx]\n                else:\n                    values[(comp.name, pop.name)] = comp.vals[idx]", "                    values[(pop.name, comp.name)] = comp._vals[:, idx]\n                else:\n                    values[(pop.name, comp.name)] = comp.vals[idx]")
+mutant("C10-M2", "C10", "R10a", "apply writes comp.vals[0] for timed compartments", PA, "Initialization.apply", "                    comp._vals[:, 0] = self.values[(comp.name, pop.name)]", "                    comp.vals[0] = self.values[(comp.name, pop.name)]")
+mutant("C10-M3", "C10", "R10a", "apply skips sink compartments", PA, "Initialization.apply", "        for comp in pop.comps:\n            if isinstance(comp, TimedCompartment):", "        for comp in pop.comps:\n            if type(comp).__name__ == 'SinkCompartment':\n                continue\n            if isinstance(comp, TimedCompartment):")
+mutant("C10-M4", "C10", "R10c", "initialize_compartments solves even with a saved state", M, "Population.initialize_compartments", "            parset.apply_initialization(self, framework)\n            return\n", "            parset.apply_initialization(self, framework)\n")
+mutant("C10-M5", "C10", "R10b", "index-0 update_links deleted", M, "Model.process", "            self.update_links()  # Update all of the links\n", "")
+mutant("C10-M6", "C10", "R10a", "capture takes only the first row of timed compartments", PA, "Initialization.from_result", "comp._vals[:, idx]", "comp._vals[0, idx]")
+mutant("C10-M7", "C10", "R10d", "to_excel writes dt from the year", PA, "Initialization.to_excel", "\"dt\": self.dt,", "\"dt\": self.year,")
+mutant("C10-M8", "C10", "R10a", "capture skips the last population", PA, "Initialization.from_result", "        for pop in res.model.pops:\n", "        for pop in res.model.pops:\n            if pop is res.model.pops[-1]:\n                continue\n")
+twin("C10-T1", "C10", "loop variables renamed in apply", PA, "Initialization.apply", "        for comp in pop.comps:\n            if isinstance(comp, TimedCompartment):\n                if (comp.name, pop.name) not in self.values:\n                    comp._vals[:, 0] = 0\n                else:\n                    comp._vals[:, 0] = self.values[(comp.name, pop.name)]\n            else:\n                if (comp.name, pop.name) not in self.values:\n                    comp.vals[0] = 0\n                else:\n                    comp.vals[0] = self.values[(comp.name, pop.name)]", "        for c in pop.comps:\n            if isinstance(c, TimedCompartment):\n                if (c.name, pop.name) not in self.values:\n                    c._vals[:, 0] = 0\n                else:\n                    c._vals[:, 0] = self.values[(c.name, pop.name)]\n            else:\n                if (c.name, pop.name) not in self.values:\n                    c.vals[0] = 0\n                else:\n                    c.vals[0] = self.values[(c.name, pop.name)]")
